@@ -705,6 +705,8 @@ func (p *Printer) wordPart(wp, next WordPart) {
 			switch {
 			case len(name) > 1 && !ValidName(name): // ${10}
 			case ValidName(name + litCont): // ${var}cont
+			case litCont == "[": // ${var}[i], as zsh reads $var[i] as a subscript
+			case name == "#" && litCont != ";": // ${#}var, as zsh reads $#var as a length
 			default:
 				x2 := *wp
 				x2.Short = true
